@@ -1,3 +1,4 @@
+import RossModel.Lemmas.TwoNodes
 import RossModel.Lemmas.SerialEnd
 import RossModel.Lemmas.EndToEnd
 /-!
@@ -56,5 +57,24 @@ theorem C01_end_to_end_serial (pad : Pad) (es : List Event) (hwf : ∀ e ∈ es,
         (recipients handlers (e.receiver == b || e.receiver == BROADCAST)).map fun h => (h.token, encode pad e)) ∧
     ∀ e ∈ es, decode e.kind (encode pad e) = .ok e :=
   Ross.end_to_end_serial pad es hwf a b handlers segs hnoise hs
+
+/-- **both nodes in the model (USART):** node `a` (any handler table whose callbacks transmit nothing) calls `send_packet`
+for every event of `es` on a USART whose device may answer would-block any number of times before any byte (`rs`); node
+`b` polls a device that delivers exactly the bytes node `a`'s device accepted, with "no data yet" anywhere (`s`). Then
+`b`'s handlers are called, in order, exactly once per event not addressed to `a` itself — all handlers when the event
+is for `b` or for everybody, the capture-all handlers otherwise — each with a packet that decodes to the event sent.
+(Composition of C16, C14, C13, C15 and C03; nothing about the wire is assumed.) -/
+theorem C01_two_nodes_usart (pad : Pad) (es : List Event) (hwf : ∀ e ∈ es, e.WF ∧ (encode pad e).data.length ≤ 28672)
+    (nodeA : Proto) (hA : ∀ h ∈ nodeA.handlers, h.2.sends = []) (hlog : nodeA.log = [])
+    (rs : List WResp) (hrs : ∀ r ∈ rs, r ≠ .error)
+    (b : UInt16) (handlers : List (Nat × Handler)) (s : List ByteItem)
+    (hs : s.filter notWouldBlock =
+      (usartSendMany ((txOf (nodeA.sendAll (es.map (encode pad))).log).map usartBodies) rs).map .byte) :
+    let rx : Proto := ⟨b, handlers, (usartPolls LinkSt.init s).map toRx, [], []⟩
+    callsOf rx.tickAll.log =
+      (es.filter (routed nodeA.addr)).flatMap (fun e =>
+        (recipients handlers (e.receiver == b || e.receiver == BROADCAST)).map fun h => (h.token, encode pad e)) ∧
+    ∀ e ∈ es, decode e.kind (encode pad e) = .ok e :=
+  Ross.two_nodes_usart pad es hwf nodeA hA hlog rs hrs b handlers s hs
 
 end Ross.Props
